@@ -112,10 +112,12 @@ def check_case(case):
 
     sc = case["screen"]
     if case.get("names"):
-        pools = {"prefix": ["1", "10", "2", "100", "11", "3", "1000", "20"], "case": ["a", "A", "aa", "Aa", "b", "B", "ab", "aB"]}[case["names"]]
+        pools = {"prefix": ["1", "11", "10", "2", "100", "3", "1000", "20"], "case": ["a", "A", "aa", "Aa", "b", "B", "ab", "aB"]}[case["names"]]
         off = case["seed"] % len(pools)
         ren = lambda x: x if x == sc["control"] else x[0] + pools[(int(x[1:]) + off) % len(pools)] + ("" if int(x[1:]) < len(pools) else x[1:])
-        sc = dict(sc, rows=[dict(r, s=ren(r["s"]), t=[ren(t) for t in r["t"]]) for r in sc["rows"]])
+        # with the prefix names every other case moves dose 1 to 12: then name + dose read together collide ("t1" at 12.0, "t11" at 2.0)
+        dmap = (lambda d_: 12.0 if (case["names"] == "prefix" and case["seed"] % 2 and d_ == 1.0) else d_)
+        sc = dict(sc, rows=[dict(r, s=ren(r["s"]), t=[ren(t) for t in r["t"]], d=[dmap(d_) for d_ in r["d"]]) for r in sc["rows"]])
     if case.get("control_name"):
         old_ctl, new_ctl = sc["control"], case["control_name"]
         sc = dict(sc, control=new_ctl, rows=[dict(r, t=[new_ctl if t == old_ctl else t for t in r["t"]]) for r in sc["rows"]])
